@@ -616,7 +616,7 @@ def run(ctx):
         jobs.append((prelude, exprs, cbs))
     done = False
     try:
-        vals = engine.coq_run(ctx, "Coherent", "c04", [(p, e) for (p, e, _) in jobs], HEADER, timeout=1500)
+        vals = engine.coq_run(ctx, "Coherent", "c04", [(p, e) for (p, e, _) in jobs], HEADER, timeout=3000)
         for (p, e, cbs), vs in zip(jobs, vals):
             for cb, v in zip(cbs, vs):
                 cb(v)
